@@ -7,7 +7,7 @@
    duplicates, re-encodings, shares of other requests or groups, in any order. *)
 From Coq Require Import ZArith List Bool.
 From DosVerif Require Import Base.Val Base.Field Models.Share Models.Tbls Models.Stages Models.Recover
-     Proofs.TblsProofs Proofs.RecoverProofs.
+     Models.QueryLoop Proofs.TblsProofs Proofs.RecoverProofs Proofs.QueryLoopProofs Proofs.NodeCompose.
 Import ListNotations.
 Local Open Scope Z_scope.
 
@@ -74,6 +74,71 @@ Theorem C01_stage_live :
   run_stage O d0 dec hm_of pub t n [] (pre ++ Some (mksmsg (Some c0) (Some s0)) :: post) <> Cont.
 Proof. exact (@stage_live). Qed.
 Print Assumptions C01_stage_live.
+
+(* ---- the submitter NODE: the collector loop (Models/QueryLoop.v, C13) feeding this stage the way
+   handleQuery wires them - the node's own share first, then whatever the collector hands to the
+   request.  [pay x] is the message behind the collector payload x. *)
+
+(* the outcome at the node does not depend on when the request was registered relative to the
+   arrivals, nor on what happens to other requests: only on the arrivals for its id, in order *)
+Theorem C01_node_outcome_order_independent :
+  forall (F : Type) (O : Fops F) (d0 : bool) (dec : list N -> option F) (hm_of : list N -> F)
+         (pub : list F) (t n : Z) (own : smsg) (pay : N -> smsg) (id r : N) (es1 es2 : list ev),
+  wf_events id r es1 -> wf_events id r es2 ->
+  existsb (is_reg id r) es1 = true -> existsb (is_reg id r) es2 = true ->
+  peers id es1 = peers id es2 ->
+  node_outcome O d0 dec hm_of pub t n own pay r es1 = node_outcome O d0 dec hm_of pub t n own pay r es2.
+Proof. exact (@node_outcome_order_independent). Qed.
+Print Assumptions C01_node_outcome_order_independent.
+
+(* whatever the collector hands over, a report made by the node satisfies the contract's equation *)
+Theorem C01_node_reports_valid :
+  forall (F : Type) (O : Fops F) (d0 : bool) (dec : list N -> option F) (hm_of : list N -> F)
+         (pub : list F) (t n : Z), Flaws O ->
+  forall (own : smsg) (pay : N -> smsg) (r : N) (es : list ev) (res : list N) (sg : F),
+  node_outcome O d0 dec hm_of pub t n own pay r es = Emit res sg ->
+  exists c a, length a = 20%nat /\ c = res ++ a /\ sg = fmul O (hm_of c) (hd (f0 O) pub).
+Proof. exact (@node_reports_valid). Qed.
+Print Assumptions C01_node_reports_valid.
+
+(* once the own share and the shares that arrived for the request id - before or after the
+   registration, interleaved with anything else - hold valid shares of t distinct members on one
+   content, the node reports *)
+Theorem C01_node_live :
+  forall (F : Type) (O : Fops F) (d0 : bool) (dec : list N -> option F) (hm_of : list N -> F)
+         (pub : list F) (t n : Z), Flaws O -> forall nmax, NodeLaws O nmax ->
+  forall (own : smsg) (pay : N -> smsg) (id r : N) (es : list ev)
+         (xs1 xs2 : list N) (x : N) (c0 s0 : list N) (idxs : list Z),
+  n <= nmax -> Z.of_nat (length pub) <= t ->
+  wf_events id r es -> existsb (is_reg id r) es = true ->
+  peers id es = xs1 ++ x :: xs2 -> pay x = mksmsg (Some c0) (Some s0) ->
+  (20 <= length c0)%nat ->
+  let pre := Some own :: map (fun y => Some (pay y)) xs1 in
+  t <= Z.of_nat (length (sigs_of pre ++ [s0])) ->
+  NoDup idxs -> t <= Z.of_nat (length idxs) ->
+  (forall i, In i idxs -> exists s, In s (sigs_of pre ++ [s0]) /\ valid O dec pub (hm_of c0) n s i) ->
+  node_outcome O d0 dec hm_of pub t n own pay r es <> Cont.
+Proof. exact (@node_live). Qed.
+Print Assumptions C01_node_live.
+
+(* the node on the toy instance: two shares arrive BEFORE the registration, interleaved with
+   another request's traffic: one report *)
+Example C01_node_example :
+  let pay := fun x : N => match x with
+                         | 1%N => mksmsg (Some (5 :: repeat 9 20)%N) (Some [0;1;55]%N)
+                         | 2%N => mksmsg (Some (5 :: repeat 9 20)%N) (Some [0;2;75]%N)
+                         | _ => mksmsg None None end in
+  match node_outcome (zq_ops 101) true
+          (fun b => match b with [x] => Some (zq_of 101 (Z.of_N x)) | [x; _] => Some (zq_of 101 (Z.of_N x)) | _ => None end)
+          (fun c => zq_of 101 (match c with x :: _ => Z.of_N x | [] => 1 end))
+          [zq_of 101 3; zq_of 101 4] 2 3
+          (mksmsg (Some (5 :: repeat 9 20)%N) None) pay 7
+          [Peer 9 1; Peer 4 8; Register 4 3; Peer 9 2; Register 9 7; Cancel 3]%N with
+  | Emit r sg => r = [5%N] /\ zv sg = 15
+  | _ => False
+  end.
+Proof. vm_compute. split; reflexivity. Qed.
+Print Assumptions C01_node_example.
 
 (* example over Z/101Z: polynomial 3 + 4x (t = 2), toy decoder as in C02; two junk arrivals, one
    share of another content, then two valid shares: one report *)
